@@ -256,6 +256,13 @@ namespace hv
             {
                 typed_eval(id.value(), s, now, out, [&](const WOp &op) {
                     if (op.kind == "set") { auto p = kv(op.arg); out[Int{num(p.first)}].set(Int{p.second}); }
+                    else if (op.kind == "setc")
+                    {   // an existing entry written through its child output, not through the dictionary's structural API
+                        auto p = kv(op.arg);
+                        const auto slot = out.find_slot(Int{num(p.first)});
+                        if (slot != TS_DATA_NO_CHILD_ID && out.slot_live(slot)) out.at_slot(slot).set(Int{p.second});
+                        else out[Int{num(p.first)}].set(Int{p.second});
+                    }
                     else if (op.kind == "del")
                     {
                         auto m = static_cast<const TSDOutputView &>(out).begin_mutation(now);
